@@ -50,6 +50,19 @@ func (e *Engine) parseRegistryKeyCtx(v ssa.Value, ctx []callCtx) registryKey {
 	if !ok {
 		return registryKey{why: "separator is not a constant"}
 	}
+	if len(ctx) > 0 && e.fnRole(c.Call.StaticCallee()) == "" {
+		// the key helper normalises in place (strings.Join(strings.Fields(expression), " ")): the helper itself is the
+		// normalising function, the expression part is what the chain of library calls starts from
+		x := ssa.Value(c)
+		for {
+			cc, isCall := strip(x).(*ssa.Call)
+			if !isCall || cc.Call.StaticCallee() == nil || e.fnRole(cc.Call.StaticCallee()) != "" || len(cc.Call.Args) == 0 {
+				break
+			}
+			x = cc.Call.Args[0]
+		}
+		return registryKey{ok: true, sep: sep, norm: b.Parent(), table: strings.Join(e.originsCtx(l.X, ctx), "|"), expr: strings.Join(e.originsCtx(x, ctx), "|")}
+	}
 	return registryKey{ok: true, sep: sep, norm: c.Call.StaticCallee(), table: strings.Join(e.originsCtx(l.X, ctx), "|"), expr: strings.Join(e.originsCtx(c.Call.Args[0], ctx), "|")}
 }
 
